@@ -569,9 +569,35 @@ func checkC13(c *run.Ctx) {
 			}
 		})
 	})
+	// (4) anchor/alias/merge graphs with cycles (the C07 generator) embedded as a step and as a top-level extra
+	ng := c.N(6000, 300000)
+	c.Phase("graphs", func() {
+		c.Parallel("gr", ng, func(i int, r *rand.Rand) {
+			g := gen.AnchorGraph(r, gen.GraphOpts{Cycles: i%4 != 0, Big: i%7 == 0, MaxAnchors: 12})
+			cmd := doc.M(doc.P("command", doc.S("x")), doc.Pair{Merge: true, Val: g.Root})
+			root := doc.M(doc.P("graph", g.Root), doc.P("steps", doc.L(cmd, g.Root, doc.S("wait"))))
+			txt, err := doc.ToYAML(root, doc.YAMLOpts{Rng: r, Flow: []float64{0, 0.3}[r.IntN(2)], Anchors: true})
+			if err != nil {
+				return
+			}
+			id := run.CaseID("gr", i)
+			jr.write("", id, txt)
+			out, ok := c13Check(c, id, []byte(txt), "anchor-graph")
+			jr.done(id)
+			c.Eval(1)
+			if !ok {
+				return
+			}
+			c.Count("outcome_"+out.class, 1)
+			c.Count("graph_outcome_"+out.class, 1)
+			if i%8 == 0 {
+				c.Feature("gr", out.class, g.ValueBack > 0, g.MergeBack > 0)
+			}
+		})
+	})
 	jr.clear()
 	c.Finish("exploration",
-		"(1) the unmutated corpus (documents extracted from the repository's tests plus hand-written real-world pipelines with anchors/merges, JSON, legacy type keys); (2) seeded mutations of it (bit flips, truncation, dictionary insertion of YAML indicators and pipeline keys, splices between documents, duplicated line ranges, indentation damage, deletions, token replacement by another type, line swaps; 1-4 per input); (3) grammar documents with one node's kind swapped at a random position (scalar/list/mapping/null/bool/float/empty/deep) and non-string `type` values. Inputs over 64 KiB or with alias expansion over 2*10^5 nodes are dropped (counted). Monitors: no panic; wall clock per input; for usable results Steps non-nil, no nil step, step count = the input's step sequence obtained independently through yaml.Node + the harness merge resolver (recursively in groups), unknown steps equal the input entry verbatim, at least one reported cause per fallback, json.Marshal and yaml.Marshal succeed. distinct_nontrivial counts distinct (generator, outcome class, has unknowns, mutation kinds) in a sample",
+		"(1) the unmutated corpus (documents extracted from the repository's tests plus hand-written real-world pipelines with anchors/merges, JSON, legacy type keys, and hostile alias/merge cycle shapes); (2) seeded mutations of it (bit flips, truncation, dictionary insertion of YAML indicators and pipeline keys, splices between documents, duplicated line ranges, indentation damage, deletions, token replacement by another type, line swaps; 1-4 per input); (3) grammar documents with one node's kind swapped at a random position (scalar/list/mapping/null/bool/float/empty/deep) and non-string `type` values; (4) anchor/alias/merge graphs from the C07 generator, three quarters of them with value or merge cycles (incl. self-referential merge sequences), embedded as a step, merged into a command step and as a top-level extra. Inputs over 64 KiB or with alias expansion over 2*10^5 nodes are dropped (counted). Monitors: no panic; wall clock per input; for usable results Steps non-nil, no nil step, step count = the input's step sequence obtained independently through yaml.Node + the harness merge resolver (recursively in groups), unknown steps equal the input entry verbatim, at least one reported cause per fallback, json.Marshal and yaml.Marshal succeed. distinct_nontrivial counts distinct (generator, outcome class, has unknowns, mutation kinds) in a sample",
 		nil,
 		[]string{"K3 (non-finite floats -> json.Marshal error) and K5 (whitespace-leading multi-line string -> yaml.Marshal error) are recognised by a narrow predicate (failure mode + presence of the trigger in the data) and counted, other marshal failures are violations", "a group entry may come back as a group or as one verbatim unknown step", "a process-fatal event (stack overflow) is attributed by the driver through the per-worker journal"})
 	_ = errors.Is
